@@ -44,6 +44,19 @@ CHECKS.update({
          "DESIGN.md §4 C17"),
 })
 
+CHECKS.update({
+ "C14": ("exploration",
+         "deterministic simulation with validator-fault injection (duplicate-vote evidence at past heights, downtime until the signing window trips, both at once, with unbondings/redelegations in flight) and proposals ending vetoed/below quorum/expired under drawn burn flags; fault-free twin fork of every faulty BeginBlock + direct accounting around every gov EndBlock + negative control for other modules' burns",
+         "Every BeginBlock that carries validator faults is executed twice from a forked disk: with the faults and without (same header, all validators signing); supply must be equal and the coins missing from the staking pools must sit in the distribution module and be credited to the community pool (exactly: slashed + what the slashing hooks moved from outstanding rewards). Across every EndBlock supply is unchanged and coins leaving the gov module equal refunds (bank events) plus community-pool growth, with the distribution module holding them; a liquid-vesting redeem must still reduce supply.",
+         "Reward withdrawals triggered by slashing hooks are measured (account balance and outstanding-reward deltas between the twins), not modelled.",
+         "DESIGN.md §4 C14"),
+ "C19": ("exploration",
+         "deterministic simulation: mixed seeded histories; at seeded block boundaries the node's disk is forked, exported, and a fresh application is initialised from the export (InitChain at the next height); re-export comparison section by section, query-set comparison, and two blocks of identical traffic on original fork and import followed by another export comparison",
+         "export(import(export(S))) must equal export(S) as canonical JSON for every module section; a query set over the Haqq modules (evm account/code/storage/params, feemarket, erc20, vesting balances, liquid vesting, DAO, coinomics, epochs, bank) must answer identically after one block on both; after two identical blocks both must export the same document and have produced the same result codes.",
+         "Normalised as height-derived or SDK-internal and therefore not compared: the 09-localhost IBC client's latest_height and the staking unbonding ids (hook identifiers whose counter the SDK genesis does not carry). States with no bonded validator are skipped (a real chain would have halted).",
+         "DESIGN.md §4 C19"),
+})
+
 NOT_YET = {}  # id -> reason (filled below)
 NA = {
  "C18": "pure function of one input (wrap -> encode -> decode -> unwrap of one Ethereum tx): no schedule, clock, fault, crash or second party can change its result, so deterministic simulation with fault injection has nothing to decide; see DESIGN.md §4 C18",
